@@ -27,7 +27,7 @@ RULE = ('cases = (operator form, input variant in {rectangular, ragged, with-mut
         'cells, addfield/addcolumn insertion indices, joins with missing=). Non-trivial: the source has >= 2 data rows and the operator '
         'delivered >= 2 rows. Distinct = SHA-1 of the case.')
 ASSUMPTIONS = ['mutable cell types generated are list and dict', 'the guard self-test fires at the start of every run, otherwise the run is inconclusive']
-REQUIRED = ['guard-selftest', 'entries-judged', 'rows-in-yield-ledger', 'partial-iterations', 'ragged-inputs', 'mutable-cells', 'guarded-arguments', 'c12-argument-forms', 'c14-argument-forms']
+REQUIRED = ['guard-selftest', 'longer-second-table', 'entries-judged', 'rows-in-yield-ledger', 'partial-iterations', 'ragged-inputs', 'mutable-cells', 'guarded-arguments', 'c12-argument-forms', 'c14-argument-forms']
 
 MUT = [[1, 2], {'p': 1}, [], {'p': 1, 'q': [2]}, [[3]], {'q': 2}]
 
@@ -148,6 +148,10 @@ def cases(ctx):
         for variant in _variants_for(name):
             for stop in [None] + list(range(0, 8)):
                 yield {'op': name, 'variant': variant, 'stop': stop}
+            if name in C.ENTRIES and C.by_name(name).arity == 2:
+                # a longer second table: several of its keys lie beyond the first table's last key (and one before its first)
+                for stop in (None, 5):
+                    yield {'op': name, 'variant': variant, 'stop': stop, 'n2': 9}
             if not ctx.quick:
                 # larger inputs, and every internal sort forced onto the temp-file path (pickled copies must not be mistaken for,
                 # nor hide, mutations of the caller's rows)
@@ -261,7 +265,10 @@ def judge(case, ctx):
         from petl import config as pcfg
         pcfg.sort_buffersize = 2
     if arity == 2:
-        plain.append(C.table_joinrev(3) if second_schema == 'joinrev' else (C.table_join(3) if second_schema == 'join' else C.table_same(3)))
+        n2 = case.get('n2', 3)
+        if n2 != 3:
+            ctx.seen('longer-second-table')
+        plain.append(C.table_joinrev(n2) if second_schema == 'joinrev' else (C.table_join(n2) if second_schema == 'join' else C.table_same(n2)))
     before = copy.deepcopy(plain)
     srcs = [probes.guard(t) for t in plain]
     if variant == 'ragged':
